@@ -156,14 +156,15 @@ extern jmp_buf g_run_jmp;
 extern uint64_t g_probe[MAXPROBE];
 extern const char *g_probe_name[MAXPROBE];
 int probe_id(const char *name);         /* registers on first use */
-#define PROBE(name) do { static int _pid = -1; \
-        if (_pid < 0) _pid = probe_id(name); g_probe[_pid]++; } while (0)
+/* (the name may be an expression that picks one of several literals: the cached id follows the name) */
+#define PROBE(name) do { static int _pid = -1; static const char *_pnm; const char *_n = (name); \
+        if (_pid < 0 || _pnm != _n) { _pnm = _n; _pid = probe_id(_n); } g_probe[_pid]++; } while (0)
 /* probe with a run-time name (interned by content) */
 void probe_dyn(const char *name);
 void sim_watchdog(int seconds);          /* CPU-time budget of the current run: 3*seconds (default 20) */
 extern uint64_t g_gen_index;
-#define PROBE_N(name, n) do { static int _pid = -1; \
-        if (_pid < 0) _pid = probe_id(name); g_probe[_pid] += (n); } while (0)
+#define PROBE_N(name, n) do { static int _pid = -1; static const char *_pnm; const char *_n = (name); \
+        if (_pid < 0 || _pnm != _n) { _pnm = _n; _pid = probe_id(_n); } g_probe[_pid] += (n); } while (0)
 
 /* abstract-state hash set (distinct states reached, measured) */
 void state_note(uint64_t h);
